@@ -24,12 +24,19 @@ RUN_CLAUSE_PROPS = {
 SCHED_CLAUSE_PROPS = {
     "VertexExists": {"C07"}, "EachVertexOnce": {"C07", "C06"}, "InSeqOrder": {"C07"}, "CarriesOwnTimes": {"C07"}, "CarriesOwnWindow": {"C07"},
     "ProducersFirst": {"C07"}, "SameKindTwiceInGeneration": {"C07"}, "SupClosesPartition": {"C07"}, "RequiredExecuted": {"C07"},
-    "BufferHoldsScheduledMessage": {"C08"},
+    "BufferHoldsScheduledMessage": {"C08"}, "BufferHoldsDefaultForNegative": {"C08"},
 }
 
 
-def _rec_cfgs(seed, n, **kw):
-    return _graphs(seed, n, **kw)
+def _rec_cfgs(seed, n, fam=(), **kw):
+    """n configurations: first one per requested hand-made family (harness/families.py), the rest from the seeded generator"""
+    from .. import families
+
+    out = []
+    for k, f in enumerate(fam):
+        if len(out) < n:
+            out.append(families.FAMILIES[f](random.Random(seed * 31 + k)))
+    return out + _graphs(seed, n - len(out), **kw)
 
 
 def _gen_cfgs(seed, n):
@@ -72,11 +79,14 @@ def _judge(rep, items, module, table, mine, kind):
 # ------------------------------------------------------------------------------------------------
 def _static_jobs(seed, n_rec, n_gen, modes_rec, modes_gen, tag):
     jobs = []
-    for i, cfg in enumerate(_rec_cfgs(seed + 700, n_rec)):
+    for i, cfg in enumerate(_rec_cfgs(seed + 700, n_rec, fam=("long_sink", "slow_producer", "slow_side_node"))):
         rng = random.Random(seed + i)
+        ms = modes_rec(i)
+        if i == 0:
+            ms = [["mcs", False, {}], ["gen", False, {}]] + ms[:1]  # long_sink: prune=False is what attaches the sink steps
         jobs.append(dict(kind="pyfunc", module="harness.compiled_jobs", func="static_job", id=f"{tag}rec{i}", cfg=cfg, seed=seed + i, source="record",
                          histories=[_hist_step(rng.randint(4, 8)), _hist_run(rng.randint(3, 8)), _hist_step(rng.randint(3, 5))][: rng.choice([2, 3])],
-                         modes=modes_rec(i), timeout=1500))
+                         modes=ms, timeout=1500))
     for i, cfg in enumerate(_gen_cfgs(seed + 750, n_gen)):
         rng = random.Random(seed + 50 + i)
         jobs.append(dict(kind="pyfunc", module="harness.compiled_jobs", func="static_job", id=f"{tag}gen{i}", cfg=cfg, seed=seed + i, source="generate",
@@ -121,9 +131,9 @@ def c07(tier, seed):
     return rep.finish(dict(feature_counts=fc))
 
 
-def _run_jobs_for(seed, n, tag, runs_of, modes_of, match_async=False, source="record"):
+def _run_jobs_for(seed, n, tag, runs_of, modes_of, match_async=False, source="record", fam=()):
     jobs = []
-    cfgs = _rec_cfgs(seed + 800, n) if source == "record" else _gen_cfgs(seed + 850, n)
+    cfgs = _rec_cfgs(seed + 800, n, fam=fam) if source == "record" else _gen_cfgs(seed + 850, n)
     for i, cfg in enumerate(cfgs):
         rng = random.Random(seed + i)
         job = dict(kind="pyfunc", module="harness.compiled_jobs", func="run_job", id=f"{tag}{i}", cfg=cfg, seed=seed + i, source=source,
@@ -160,7 +170,7 @@ def c01(tier, seed):
             return [ALL_MODES[i % 6] + [{}], ALL_MODES[(i + 3) % 6] + [{}]]
         return [m + [{}] for m in ALL_MODES]
 
-    jobs = _run_jobs_for(seed + 100, 4 if quick else 32, "c01g", runs_of, modes_of, match_async=True)
+    jobs = _run_jobs_for(seed + 100, 5 if quick else 32, "c01g", runs_of, modes_of, match_async=True, fam=("slow_side_node", "slow_producer"))
     # the async side of the pair: the same worker validates nothing about the threaded runtime; that is C02-C04's business. Here
     # the two probe logs are compared step by step (clauses MatchesAsync_*) and the compiled log must be a run of RexRun.
     results, run_items, vs, metas = _run_campaign(rep, jobs, {"C01"})
@@ -198,7 +208,7 @@ def c08(tier, seed):
         ms = [ALL_MODES[(i * 2 + j) % 6] + [{"extra_padding": pads[(i + j) % 3]}] for j in range(2 if quick else 6)]
         return ms
 
-    jobs = _run_jobs_for(seed + 200, 3 if quick else 20, "c08r", runs_of, modes_of)
+    jobs = _run_jobs_for(seed + 200, 4 if quick else 20, "c08r", runs_of, modes_of, fam=("slow_producer", "slow_producer", "slow_side_node"))
     jobs += _run_jobs_for(seed + 250, 2 if quick else 12, "c08g", runs_of, modes_of, source="generate")
     results, run_items, vs, metas = _run_campaign(rep, jobs, {"C08"})
     # user-supplied buffer sizes: every admissible size must work, a size below the minimum must be refused by rex
